@@ -45,11 +45,28 @@ EXTRA = [
 ]
 
 
+# what stands between the package clause and the code: go/format re-parses only under some of these, and
+# import "C" files are special to the import processing
+HEADERS = [("none", ""), ("cgo", "// #include <stdio.h>\nimport \"C\"\n\n"), ("single", "import \"os\"\n\n"), ("grouped", "import (\n\t\"fmt\"\n\t\"os\"\n)\n\n"),
+           ("cgo+single", "import \"C\"\n\nimport \"os\"\n\n"), ("dot", "import . \"math\"\n\n")]
+# rewrites that PRINT as something unparseable although the tree is well-formed: a composite literal in a statement header
+HDR_CTX = [("if-cond", "func f(v T) {\n\tif foo(v) {\n\t}\n}\n"), ("for-cond", "func f(v T) {\n\tfor foo(v) {\n\t}\n}\n"),
+           ("switch-tag", "func f(v T) {\n\tswitch foo(v) {\n\t}\n}\n"), ("if-init", "func f(v T) {\n\tif w := foo(v); w {\n\t}\n}\n"),
+           ("range-x", "func f(v T) {\n\tfor range foo(v) {\n\t}\n}\n")]
+HDR_REPL = ["x == T{}", "T{x}", "struct{ a int }{1}.a > 0", "[]T{x}[0]", "map[T]bool{}[x]", "x", "(T{x})"]
+
+
 def cases():
     out = []
+    k = 0
     for (cn, ctx), rp in itertools.product(CTX, REPL):
         patch = "@@\n@@\n-foo\n+%s\n" % rp
-        out.append(("%s<-%s" % (cn, rp), patch.encode(), ("package p\n\n" + ctx).encode()))
+        hn, hd = HEADERS[k % len(HEADERS)] if k % 3 == 0 else HEADERS[0]
+        k += 1
+        out.append(("%s<-%s[%s]" % (cn, rp, hn), patch.encode(), ("package p\n\n" + hd + ctx).encode()))
+    for (cn, ctx), rp, (hn, hd) in itertools.product(HDR_CTX, HDR_REPL, HEADERS):
+        patch = "@@\nvar x expression\n@@\n-foo(x)\n+%s\n" % rp
+        out.append(("%s<-%s[%s]" % (cn, rp, hn), patch.encode(), ("package p\n\n" + hd + ctx).encode()))
     for n, p, f in EXTRA:
         out.append((n, p.encode(), f.encode()))
     return out
